@@ -39,6 +39,7 @@ def lemma_obligations(reg, lem):
         ob.props = lem.props
         ob.fuel = lem.fuel
         ob.tactic = lem.tactic
+        ob.solver_opts = lem.solver_opts
         obs.append(ob)
     # vacuity guard: requires + hints satisfiable
     if not lem.sat_check:
